@@ -364,10 +364,18 @@ func H_C09_lost() {
 func H_C09_conc() {
 	engine, client := mkEngine()
 	coll := client.Database("db").Collection("c")
-	stream, err := engine.Watch(Handle{"db", "c"}, nil, nil, nil, nil)
+	h := Handle{"db", "c"}
+	switch vf.Choice("scope", 3) {
+	case 1:
+		h = Handle{"db", ""}
+	case 2:
+		h = Handle{}
+	}
+	stream, err := engine.Watch(h, nil, nil, nil, nil)
 	vf.Assert(err == nil, "Watch failed")
 	writes := 1 + vf.Choice("writes", vf.Param("maxwrites", 2))
-	mode := vf.Choice("mode", 3)
+	mode := vf.Choice("mode", 4)
+	dropSeen := false
 	got := 0
 	ended := false
 	ctx, cancel := context.WithCancel(bg)
@@ -381,6 +389,15 @@ func H_C09_conc() {
 			vf.Assert(int(i) == got, "events were delivered out of order, twice or with a gap")
 			got++
 		}
+		if mode == 3 {
+			// the writer drops the collection at the end: the blocked consumer is woken with the drop event
+			if !stream.Next(ctx) {
+				ended = true
+				return
+			}
+			vf.Assert(bsonkit.Get(stream.event, "operationType") == "drop", "the event after the inserts is not the drop")
+			dropSeen = true
+		}
 	})
 	vf.Go(func() {
 		for i := 0; i < writes; i++ {
@@ -392,15 +409,97 @@ func H_C09_conc() {
 			stream.Close(bg)
 		case 2:
 			cancel()
+		case 3:
+			vf.Assert(coll.Drop(bg) == nil, "drop failed")
 		}
 	})
 	vf.WaitAll()
-	if mode == 0 {
+	if mode == 3 {
+		vf.Assert(got == writes && dropSeen && !ended, "the consumer did not receive the inserts and the drop")
+	} else if mode == 0 {
 		vf.Assert(got == writes && !ended, "the consumer did not receive every committed event")
 	} else {
 		vf.Assert(got == writes || ended, "the consumer neither received the events nor was it released")
 	}
 	vf.Observe("got", int64(got))
 	cancel()
+	engine.Close()
+}
+
+// shutdown while a Begin is blocked behind an active writer: whatever context the waiter passed, it is
+// released by Close with the closed error, without waiting for the token timeout
+func H_C16_shutdown() {
+	engine, _ := mkEngine()
+	holder, err := engine.Begin(bg, true)
+	vf.Assert(err == nil, "Begin failed")
+	kind := vf.Choice("ctx", 3)
+	vf.Go(func() {
+		ctx := bg
+		switch kind {
+		case 1:
+			c, cancel := context.WithCancel(bg)
+			defer cancel()
+			ctx = c
+		case 2:
+			ctx = nil
+		}
+		txn, err := engine.Begin(ctx, true)
+		if err == nil {
+			engine.Abort(txn)
+		}
+		vf.Assert(err == ErrEngineClosed, "a Begin blocked behind a writer did not return the closed error after shutdown")
+	})
+	vf.Go(func() { engine.Close() })
+	vf.WaitAll()
+	vf.Assert(vf.TimerFires() == 0, "a blocked Begin was only released by the token timeout, not by the shutdown")
+	engine.Abort(holder)
+	_, err = engine.Begin(bg, true)
+	vf.Assert(err == ErrEngineClosed, "Begin after shutdown did not return the closed error")
+}
+
+// retention trims a prefix of the change log while a stream is positioned somewhere in it: if the
+// stream's position survives, it continues with the very next event (nothing skipped, nothing twice);
+// if not, it reports the lost position
+func H_C09_trim() {
+	engine, client := mkEngine()
+	coll := client.Database("db").Collection("c")
+	total := 2 + vf.Choice("total", vf.Param("maxevents", 2))
+	for i := 0; i < total; i++ {
+		_, err := coll.InsertOne(bg, bson.D{{Key: "i", Value: int32(i)}})
+		vf.Assume(err == nil)
+	}
+	oplog := append(bsonkit.List{}, stOplog(engine.Catalog())...)
+	p := vf.Choice("pos", total)
+	tok := bsonkit.Get(oplog[p], "_id").(bson.D)
+	stream, err := engine.Watch(Handle{}, nil, &tok, nil, nil)
+	vf.Assert(err == nil, "Watch failed")
+	// optionally consume one event before the trim
+	if p+1 < total && vf.Bool("consume") {
+		vf.Assert(stream.TryNext(bg) && stream.event == oplog[p+1], "the stream did not deliver the next event")
+		p++
+	}
+	keep := 1 + vf.Choice("keep", total)
+	txn, err := engine.Begin(bg, true)
+	vf.Assert(err == nil, "Begin failed")
+	txn.Clean(0, keep, 0, time.Hour)
+	vf.Assert(engine.Commit(txn) == nil, "Commit failed")
+	kept := stOplog(engine.Catalog())
+	vf.Assert(len(kept) == keep || keep > total && len(kept) == total, "retention did not trim the change log as configured")
+	_, err = coll.InsertOne(bg, bson.D{{Key: "i", Value: int32(total)}})
+	vf.Assume(err == nil)
+	after := stOplog(engine.Catalog())
+	first := total - len(kept) // index (in the original numbering) of the oldest retained event
+	vf.Observe("first", int64(first))
+	if p >= first {
+		// position retained: the rest of the log, in order, exactly once
+		for i := p + 1; i <= total; i++ {
+			vf.Assert(stream.TryNext(bg), "the stream stalled although its position is still in the change log")
+			vf.Assert(stream.event == after[i-first], "the stream skipped or repeated an event after retention trimmed the change log")
+		}
+		vf.Assert(!stream.TryNext(bg) && stream.Err() == nil, "the stream delivered an extra event or reports an error")
+	} else {
+		vf.Assert(!stream.TryNext(bg), "the stream skipped over discarded events")
+		vf.Assert(stream.Err() == ErrLostOplogPosition, "no lost-position error after retention discarded the stream's position")
+	}
 	engine.Close()
 }
